@@ -370,6 +370,81 @@ def mode_universe(_):
     return out
 
 
+def mode_inert(req_cases):
+    """C02: run every inspection entry point on archives whose name slots mention importable-but-not-imported
+    canary modules; report anything that was imported, resolved, opened or executed on the archive's behalf."""
+    import sys
+    cfg, cases = req_cases[0], req_cases[1:]
+    sys.path.insert(0, cfg["canary_dir"])
+    sys.path.insert(0, CANARY_DIR)
+    builtins._verif_ledger = []
+    import skops.io as sio
+    tr = Tracer()
+    scratch = Path(cfg["scratch"])
+    scratch.mkdir(parents=True, exist_ok=True)
+    hook_events = []
+    state = {"on": False, "allowed": None}
+
+    def hook(ev, args):
+        if not state["on"]:
+            return
+        if ev == "import":
+            if str(args[0]).startswith(("verif_cm_", "verif_canary")):
+                hook_events.append(["import", str(args[0])])
+        elif ev == "open":
+            if str(args[0]) != state["allowed"] and not str(args[0]).endswith((".pyc", ".py", ".so")):
+                hook_events.append(["open", str(args[0]), str(args[1])])
+        elif ev in ("exec", "compile"):
+            # compile/exec happen inside the import of a module: judged by the import event itself
+            pass
+        elif ev.startswith(("os.", "subprocess.", "socket.", "ctypes.", "shutil.", "tempfile.", "pty.", "webbrowser.")) and ev not in ("os.listdir", "os.scandir", "os.putenv"):
+            hook_events.append([ev, str(args)[:80]])
+    sys.addaudithook(hook)
+    out = []
+    for case in cases:
+        data = build_zip(case["schema"], case["members"])
+        f = scratch / f"inert{os.getpid()}.skops"
+        f.write_bytes(data)
+        state["allowed"] = str(f)
+        rec = {"steps": {}}
+        before = set(sys.modules)
+
+        def step(name, fn):
+            builtins._verif_ledger.clear()
+            del hook_events[:]
+            state["on"] = True
+            try:
+                with tr.tracing():
+                    try:
+                        fn()
+                        res = "ok"
+                    except BaseException as e:  # noqa
+                        res = "err:" + (exc_enum(e) if isinstance(e, Exception) else "BASEEXC")
+            finally:
+                state["on"] = False
+            new_mods = sorted(m for m in set(sys.modules) - before if m.startswith(("verif_cm_", "verif_canary")))
+            rec["steps"][name] = {"result": res.split(",")[0][:60], "resolved": canon_events(tr.events), "import_module": list(tr.imports),
+                                  "ledger": [list(x) for x in builtins._verif_ledger], "hook": [list(x) for x in hook_events], "new_modules": new_mods}
+        step("get_untrusted_types(data)", lambda: sio.get_untrusted_types(data=data))
+        step("get_untrusted_types(file)", lambda: sio.get_untrusted_types(file=f))
+        step("visualize(all)", lambda: sio.visualize(data, sink=lambda nodes, show, **kw: list(nodes)))
+        step("visualize(file,default sink)", lambda: sio.visualize(f, show="untrusted"))
+        # the part of load before the trust decision: with an empty trusted list every canary name is refused
+        step("loads(trusted=[])", lambda: sio.loads(data, trusted=[]))
+        step("load(file,trusted=None)", lambda: sio.load(f, trusted=None))
+        # modules imported by a legitimate construct (audit passed) would show up here: drop them from the baseline
+        for m in list(sys.modules):
+            if m.startswith("verif_cm_"):
+                del sys.modules[m]
+        try:
+            f.unlink()
+        except OSError:
+            pass
+        out.append(rec)
+    return out
+
+
+MODES["inert"] = mode_inert
 MODES["universe"] = mode_universe
 MODES["inspect"] = mode_inspect
 MODES["resolve_table"] = mode_resolve_table
